@@ -1,12 +1,15 @@
 """Cross-cutting rules, run for every property on the part of the program its anchors name (properties.jsonl anchors.files).
 
 U1 swapped arguments: a call passes two variables that carry the names of two of the callee's parameters, crossed.
+U2 option/enum confusion: an option that is converted with Enum[args.x] (so it holds the member NAME, a str) is compared with an
+   Enum member - the comparison is constantly False / True.
 """
+import ast
 import json
 import os
 
 from ..engine import argswap
-from ..engine.program import src
+from ..engine.program import src, dotted, walk_no_nested
 
 _VERIF = os.path.dirname(os.path.dirname(os.path.dirname(os.path.abspath(__file__))))
 
@@ -37,5 +40,66 @@ def run(prog, ctx, pid):
         hits += 1
         ctx.fail("U1", c, q, src(c)[:110], "arguments %d and %d of this call are the variables `%s` and `%s`, which are the names of "
                  "parameters %d and %d of %s: the two values are passed crossed" % (i + 1, j + 1, src(c.args[i]), src(c.args[j]), j + 1, i + 1, cq))
+    u2(prog, ctx, files)
     if not hits:
         ctx.ok("U1", "anchor modules", "no crossed same-named arguments in calls in/into %d anchor-module functions" % n, nontrivial=False)
+
+
+def _enum_classes(prog):
+    out = set()
+    for m, q, c in prog.all_classes():
+        for b in c.bases:
+            bn = dotted(b) or ""
+            if bn.split(".")[-1] in ("Enum", "IntEnum", "Flag"):
+                out.add(c.name)
+    return out
+
+
+def u2(prog, ctx, files):
+    enums = _enum_classes(prog)
+    # options known to hold a member name: E[args.x] somewhere
+    name_opts = {}
+    for m, q, f in prog.all_functions():
+        for n in walk_no_nested(f):
+            if isinstance(n, ast.Subscript) and isinstance(n.value, ast.Name) and n.value.id in enums:
+                d = dotted(n.slice)
+                if d and "." in d:
+                    name_opts.setdefault(d.split(".")[-1], n.value.id)
+    ctx.rule("U2", "an option attribute that is converted by Enum[<obj>.<opt>] holds the member's name (a str); it is never compared "
+                   "with == / != / in against members of an Enum (constantly False); scoped to options whose derived settings an "
+                   "anchor module of the property reads")
+    n = 0
+    for m, q, f in prog.all_functions():
+        for c in walk_no_nested(f):
+            if not (isinstance(c, ast.Compare) and len(c.ops) == 1 and isinstance(c.ops[0], (ast.Eq, ast.NotEq, ast.In, ast.NotIn, ast.Is, ast.IsNot))):
+                continue
+            sides = [c.left, c.comparators[0]]
+            for a, b in (sides, sides[::-1]):
+                da = dotted(a)
+                if not (da and "." in da and da.split(".")[-1] in name_opts):
+                    continue
+                members = [x for x in ast.walk(b) if isinstance(x, ast.Attribute) and isinstance(x.value, ast.Name) and x.value.id in enums]
+                if not members:
+                    continue
+                # scope: what is decided under this comparison
+                cur = c
+                while cur is not None and not isinstance(cur, ast.stmt):
+                    cur = getattr(cur, "_parent", None)
+                decided = {t.attr for st in ast.walk(cur) if isinstance(st, ast.Assign) for t in st.targets if isinstance(t, ast.Attribute)} if cur else set()
+                decided.add(da.split(".")[-1])
+                used = False
+                for m2, q2, f2 in prog.all_functions():
+                    if m2.rel in files and any(isinstance(x, ast.Attribute) and x.attr in decided for x in walk_no_nested(f2)):
+                        used = True
+                        break
+                if not used and m.rel not in files:
+                    continue
+                n += 1
+                ctx.fail("U2", c, q, src(c)[:100], "%s holds the NAME of a %s member (it is converted with %s[%s] elsewhere), so comparing it "
+                         "with %s is constantly %s: the branch it guards is dead and %s keep(s) a value that the rest of the program "
+                         "does not expect" % (da, name_opts[da.split(".")[-1]], name_opts[da.split(".")[-1]], da, src(members[0]),
+                                              "False" if isinstance(c.ops[0], (ast.Eq, ast.In, ast.Is)) else "True",
+                                              ", ".join(sorted(decided - {da.split(".")[-1]})) or da))
+    if not n:
+        ctx.ok("U2", "isoquant.py", "%d name-valued options (%s...) are never compared with Enum members" % (len(name_opts), ", ".join(sorted(name_opts)[:4])),
+               nontrivial=False)
